@@ -19,9 +19,48 @@ func readPoints(r io.Reader, byteOrder binary.ByteOrder) ([]geom.Point, error) {
 	if err := binary.Read(r, byteOrder, &numPoints); err != nil {
 		return nil, err
 	}
+	if numPoints > maxPointsChunk {
+		return readPointsChunked(r, byteOrder, numPoints)
+	}
 	points := make([]geom.Point, numPoints)
 	if err := binary.Read(r, byteOrder, &points); err != nil {
 		return nil, err
+	}
+	return points, nil
+}
+
+// Count fields come from the input and cannot be trusted: a nine-byte message
+// can announce 2^32-1 elements. The readers therefore never allocate more than
+// maxPrealloc elements (maxPointsChunk points) on the strength of a count
+// alone; beyond that, slices grow as the elements are actually read, so the
+// memory used stays proportional to the size of the input.
+const (
+	maxPrealloc    = 32
+	maxPointsChunk = 256
+)
+
+// preallocCount returns the capacity to allocate up front for n announced elements.
+func preallocCount(n uint32) int {
+	if n > maxPrealloc {
+		return maxPrealloc
+	}
+	return int(n)
+}
+
+// readPointsChunked reads numPoints points in chunks of at most maxPointsChunk.
+func readPointsChunked(r io.Reader, byteOrder binary.ByteOrder, numPoints uint32) ([]geom.Point, error) {
+	var points []geom.Point
+	for remaining := numPoints; remaining > 0; {
+		n := remaining
+		if n > maxPointsChunk {
+			n = maxPointsChunk
+		}
+		chunk := make([]geom.Point, n)
+		if err := binary.Read(r, byteOrder, &chunk); err != nil {
+			return nil, err
+		}
+		points = append(points, chunk...)
+		remaining -= n
 	}
 	return points, nil
 }
